@@ -18,6 +18,8 @@ func main() {
 	switch c.Prop {
 	case "C03":
 		r = net.C03(c)
+	case "C04":
+		r = net.C04(c)
 	case "C06":
 		r = net.C06(c)
 	case "C07":
